@@ -9,6 +9,7 @@ import DSV.Model.Occ
 import DSV.Model.Lock
 import DSV.Model.Create
 import DSV.Model.GcRun
+import DSV.Model.GcRace
 /-!
 Line-protocol driver: one request per line on stdin, one reply per line on stdout.
 First token selects the model function.  Imports only `DSV.Model.*` (core Lean), so it links natively.
@@ -721,6 +722,54 @@ def handleGcRun (args : List String) : String :=
       | .raised d => "raised " ++ (if d.isEmpty then "-" else ",".intercalate (d.map showKey))
   | _, _, _, _, _ => "bad-op"
 
+/-! #### collector × transactions race -/
+open DSV.GcRace in
+def parseRaceAct (t : String) : Option (Nat × Act) :=
+  match t.splitOn ":" with
+  | [a, "marker", f, o] => match a.toNat?, f.toNat? with
+      | some x, some y => some (x, .txMarker y (o = "1"))
+      | _, _ => none
+  | [a, "write", f] => match a.toNat?, f.toNat? with
+      | some x, some y => some (x, .txWrite y)
+      | _, _ => none
+  | [a, "flip"] => a.toNat?.map fun x => (x, .txFlip)
+  | [a, "unmark", f] => match a.toNat?, f.toNat? with
+      | some x, some y => some (x, .txUnmark y)
+      | _, _ => none
+  | [a, "finish"] => a.toNat?.map fun x => (x, .txFinish)
+  | [a, "rollback"] => a.toNat?.map fun x => (x, .txRollback)
+  | [a, "readMeta"] => a.toNat?.map fun x => (x, .gcReadMeta)
+  | [a, "readMarkers"] => a.toNat?.map fun x => (x, .gcReadMarkers)
+  | [a, "delete", f] => match a.toNat?, f.toNat? with
+      | some x, some y => some (x, .gcDelete y)
+      | _, _ => none
+  | [a, "gcFinish"] => a.toNat?.map fun x => (x, .gcFinish)
+  | _ => none
+
+open DSV.GcRace in
+def handleRace (args : List String) : String :=
+  -- gcrace.trace mf=1 init=<f/old,...|-> committed=<f,...|-> | steps
+  let (hdr, rest) := args.span (· ≠ "|")
+  let steps := rest.drop 1
+  let kv := hdr.filterMap parseKv
+  let get (k : String) : String := (kv.find? (·.1 == k)).map (·.2) |>.getD ""
+  let initFiles : List (Nat × Bool) := if get "init" = "-" then [] else ((get "init").splitOn ",").filterMap fun t =>
+    match t.splitOn "/" with
+    | [f, o] => f.toNat?.map fun n => (n, o = "1")
+    | _ => none
+  let committed : List Nat := if get "committed" = "-" then [] else ((get "committed").splitOn ",").filterMap String.toNat?
+  match steps.mapM parseRaceAct with
+  | none => "bad-op"
+  | some acts =>
+    let univ := (initFiles.map (·.1) ++ acts.filterMap fun p => match p.2 with | .txMarker f _ => some f | _ => none).eraseDups
+    let files : Nat → Option FileSt := fun f => (initFiles.find? (·.1 == f)).map fun p => ⟨true, false, 0, p.2, false⟩
+    let rec go (s : Sys) (i : Nat) : List (Nat × Act) → String
+      | [] => s!"ok committed={",".intercalate ((s.committed.mergeSort (· ≤ ·)).map toString)} deleted={",".intercalate ((s.deleted.mergeSort (· ≤ ·)).map toString)}"
+      | (a, act) :: rest => match step (get "mf" = "1") univ s a act with
+          | some s' => go s' (i + 1) rest
+          | none => s!"fail step {i}: not enabled"
+    go (init files committed) 0 acts
+
 def handle (line : String) : String :=
   match splitWs line with
   | [] => "bad-op"
@@ -731,6 +780,7 @@ def handle (line : String) : String :=
     else if cmd.startsWith "hint." then handleHint cmd args
     else if cmd.startsWith "meta." then handleMeta cmd args
     else if cmd = "gc.run" then handleGcRun args
+    else if cmd = "gcrace.trace" then handleRace args
     else if cmd.startsWith "gc." then handleGc cmd args
     else if cmd = "occ.trace" then handleOcc args
     else if cmd = "create.trace" then handleCreate args
